@@ -14,37 +14,37 @@ open Factory
 
 /-! ## Each rejection carries the reason of the branch that made it, and is made once -/
 
-/-- what a rejection appends to the history: one discard report (to the handler if one is
-configured) and, if the submitter attached an acceptance port that is still unanswered, the
+/-- what a rejection appends to the history: one discard report, addressed to the discard
+handler `h` that is installed at that moment (`none`: no handler configured), and, if the submitter attached an acceptance port that is still unanswered, the
 job handed back through it — both exactly once. -/
-def rejection (hasHandler : Bool) (r : Reason) (j : Job) : List Ev :=
-  Ev.discard r j.id hasHandler :: (if j.port then [Ev.reply j.id true] else [])
+def rejection (h : Option Nat) (r : Reason) (j : Job) : List Ev :=
+  Ev.discard r j.id h :: (if j.port then [Ev.reply j.id true] else [])
 
-theorem reject_log (e : Env) (r : Reason) (j : Job) :
-    ((e.discard r j).reject j).log = e.log ++ rejection e.hasHandler r j := by
+theorem reject_log (e : Env) (h : Option Nat) (r : Reason) (j : Job) :
+    ((e.discard h r j).reject j).log = e.log ++ rejection h r j := by
   unfold Env.reject Env.discard Env.emit rejection
   split <;> simp
 
 /-- (TTL) a job that is already expired when the factory sees it is rejected with `TtlExpired`
 and nothing else happens to it: no routing, no queueing. -/
 theorem dispatch_expired (w : W) (j : Job) (h : j.expired w.env.now = true) :
-    (w.dispatch j).env.log = w.env.log ++ rejection w.env.hasHandler .ttlExpired j ∧
+    (w.dispatch j).env.log = w.env.log ++ rejection w.handler .ttlExpired j ∧
     (w.dispatch j).queue = w.queue ∧ (w.dispatch j).pool = w.pool := by
   unfold W.dispatch
   simp only [h, if_true]
-  exact ⟨reject_log _ _ _, trivial, trivial⟩
+  exact ⟨reject_log _ _ _ _, trivial, trivial⟩
 
 /-- (shutdown) once `DrainRequests` has been handled every later job is rejected with
 `Shutdown`; it never reaches a worker or a queue. -/
 theorem dispatch_draining (w : W) (j : Job) (h : j.expired w.env.now = false)
     (hd : w.drain ≠ .notDraining) :
-    (w.dispatch j).env.log = w.env.log ++ rejection w.env.hasHandler .shutdown j ∧
+    (w.dispatch j).env.log = w.env.log ++ rejection w.handler .shutdown j ∧
     (w.dispatch j).queue = w.queue ∧ (w.dispatch j).pool = w.pool := by
   unfold W.dispatch
   have : (w.drain == Drain.notDraining) = false := by
     cases hw : w.drain <;> simp_all
   simp only [h, this, Bool.false_eq_true, if_false]
-  exact ⟨reject_log _ _ _, trivial, trivial⟩
+  exact ⟨reject_log _ _ _ _, trivial, trivial⟩
 
 
 /-! ## Conservation: every accepted job is in exactly one place
